@@ -86,8 +86,8 @@ Record ainv (b0 : bl) (l0 : option str) (s : sys) : Prop := mk_ainv {
 Lemma ainv_init b0 l0 : ainv b0 l0 (init b0 l0).
 Proof.
   constructor; cbn; try easy; try (intros; lia).
-  - intros _. repeat split. apply grows_refl.
-  - now left.
+  all: try (intros _; repeat split; apply incl_refl).
+  all: now left.
 Qed.
 
 Lemma ainv_step b0 l0 s t : ainv b0 l0 s -> astep s t -> ainv b0 l0 t.
